@@ -148,6 +148,16 @@ def _gen_for(stream, seed):
         return sc
     if stream == "recover":
         sc = scen.gen_scenario(seed, "shocked", types=["recovery", "arbitrary"], nev=rng.choice([1, 2, 3]), T=rng.choice([20, 30]))
+        if sc["events"]:
+            # every built-in curve in turn on the first event, with recovery times of either parity (and 2, the smallest for which
+            # the concave curve is a decreasing curve)
+            cyc = ["linear", "convexe", "convexe noscale", "concave", "concave"]
+            if seed % 2 == 1:
+                e0 = sc["events"][0]
+                e0["curve"] = cyc[(seed // 2) % len(cyc)]
+                e0["recovery_tau"] = [3, 4, 5, 7, 2, 9, 6][(seed // 10) % 7]
+                if int(sc["model"].get("dt", 1)) > e0["recovery_tau"]:
+                    e0["recovery_tau"] = int(sc["model"]["dt"]) + (0 if e0["recovery_tau"] % 2 == int(sc["model"]["dt"]) % 2 else 1)
         sc["stream"] = "recover"
         return sc
     if stream == "multi":
